@@ -194,16 +194,25 @@ pub fn handle(op: &str, args: &[&str], text: &str) -> String {
             _ => "BAD-OP".to_owned(),
         },
         _ => {
-            for h in [
+            let hs: Vec<fn(&str, &[&str], &str) -> Option<String>> = vec![
+                #[cfg(not(no_ops_reason))]
                 crate::ops_reason::handle,
+                #[cfg(not(no_ops_segment))]
                 crate::ops_segment::handle,
+                #[cfg(not(no_ops_cps))]
                 crate::ops_cps::handle,
+                #[cfg(not(no_ops_macros))]
                 crate::ops_macros::handle,
+                #[cfg(not(no_ops_rules))]
                 crate::ops_rules::handle,
+                #[cfg(not(no_ops_tree))]
                 crate::ops_tree::handle,
+                #[cfg(not(no_ops_py))]
                 crate::ops_py::handle,
+                #[cfg(not(no_ops_prover))]
                 crate::ops_prover::handle,
-            ] {
+            ];
+            for h in hs {
                 if let Some(r) = h(op, args, text) {
                     return r;
                 }
